@@ -146,6 +146,59 @@ def family_a_cases(maxlen, shard, nshards, full_upto):
             i += 1
 
 
+REC_KINDS = ('plain', 'IF', 'IFELSE_T', 'IFELSE_F', 'TRY', 'EXCEPT', 'LOOP')
+
+
+def through(kind, inner):
+    if kind == 'plain':
+        return inner
+    if kind == 'IF':
+        return op('TRUE') + op('IF') + blk(inner)
+    if kind == 'IFELSE_T':
+        return op('TRUE') + op('IF_ELSE') + blk(inner) + blk(b'')
+    if kind == 'IFELSE_F':
+        return op('FALSE') + op('IF_ELSE') + blk(b'') + blk(inner)
+    if kind == 'TRY':
+        return op('TRY_EXCEPT') + blk(inner) + blk(b'')
+    if kind == 'EXCEPT':
+        return op('TRY_EXCEPT') + blk(op('FALSE') + op('VERIFY')) + blk(inner)
+    if kind == 'LOOP':
+        return op('TRUE') + op('LOOP') + blk(op('POP0') + inner + op('FALSE')) + op('POP0')
+    raise ValueError(kind)
+
+
+def recursion_cases():
+    """unbounded recursion routed through every construct kind (and pairs of kinds), by CALL and by self-EVAL"""
+    out = []
+    chains = [(k,) for k in REC_KINDS] + [(a, b) for a in REC_KINDS[1:] for b in REC_KINDS[1:]]
+    for ch in chains:
+        inner = op('CALL') + b'\x00'
+        for k in reversed(ch):
+            inner = through(k, inner)
+        out.append(('CALL via ' + '>'.join(ch), op('DEF') + b'\x00' + blk(inner) + op('CALL') + b'\x00'))
+        inner = op('DUP') + op('EVAL')
+        for k in reversed(ch):
+            inner = through(k, inner)
+        out.append(('EVAL via ' + '>'.join(ch), P(inner) + op('DUP') + op('EVAL')))
+    return out
+
+
+def family_rec(ctx, case):
+    name, script = case
+    n = 0
+    for cl in (1, 2, 3, 4, 16):
+        for mi in (4, 1024):
+            limits = (mi, 1024, cl)
+            n += 1
+            ctx.state((script, limits))
+            mon = check_run(ctx, script, limits, {'family': 'A2 recursion through constructs', 'via': name.split(' via ')[1].split('>')[-1]})
+            ctx.state(('hw', mon.max_depth, cl))
+            if mon.max_depth > cl:
+                ctx.violation({'family': 'A2 recursion through constructs', 'invariant': 'CALL/EVAL nesting deeper than the call-stack limit',
+                               'via': name.split(' via ')[1].split('>')[-1]}, f'{name} limits {limits}: depth {mon.max_depth}')
+    ctx.evaluations += n - 1
+
+
 def family_b(ctx, names):
     """every byte-prefix of the program (truncated operands) under the default limits"""
     lim = (1024, 1024, 128)
@@ -322,6 +375,8 @@ def blocks(tier, seed):
         Block('A_hungry_programs_x_limits', lambda s, n: family_a_cases(maxlen, s, n, full_upto), family_a,
               'all sequences of <= %d statements over %d resource-hungry statements x %d limit triples (length %d: %d triples)' % (full_upto, len(NAMES), len(SMALL_LIMITS), maxlen, len(FEW_LIMITS)),
               nshards=128),
+        Block('A2_recursion_through_constructs', recursion_cases(), family_rec,
+              'unbounded CALL / self-EVAL recursion routed through every construct kind and pair of kinds x call-stack limits 1,2,3,4,16', nshards=64),
         Block('B_truncations', pairs, family_b, 'every byte-prefix of every <=2 statement program', nshards=64),
         Block('D_huge_operands', huge_cases(), family_d, 'count/size/index operands from stack or tape x huge values, tracemalloc peak', nshards=32),
         Block('E_deep_nesting_recursion', [family_e_cases(tier)], family_e, 'nesting depth {1,8,64,250} x recursion on the bare VM (fresh process)', nshards=1),
